@@ -364,6 +364,10 @@ impl<R: Read> Reader<R> {
                 let file_index = read_hex_u32(&mut inner)?;
                 #[cfg(feature = "verif-hooks")]
                 crate::verif_hooks::hit("payload.stripped_entry_read");
+                // Pad out to a multiple of 4 bytes.
+                if let Some(mut padding) = pad(STRIPPED_CPIO_HEADER_LEN) {
+                    inner.read_exact(&mut padding)?;
+                }
                 RpmPayloadEntry::Stripped(file_index)
             }
             _ => {
